@@ -98,7 +98,6 @@ Fixpoint pc_comment (esc : bool) (s : str) : str :=
   | c :: r =>
       if esc then
         if N.eqb c c_hash then c_hash :: pc_comment false r
-        else if N.eqb c c_bs then c_bs :: pc_comment true r
         else c_bs :: c :: pc_comment false r
       else if N.eqb c c_bs then pc_comment true r
       else if N.eqb c c_hash then []
@@ -166,8 +165,9 @@ Definition pc_argv (s : str) : option (list str) := option_map (filter nonempty)
 
 (* pkgconf_fragment_add: an argument -Xdata that is not special becomes a typed fragment whose data, when it
    starts with a slash, has runs of slashes collapsed (pkgconf_path_relocate); other arguments are kept verbatim
-   unless the previous fragment is an untyped unmergeable one (-isystem, -framework, ...), to which they are
-   appended after the same munging *)
+   unless the previous fragment is an untyped one (a word without a dash, -isystem, -framework, ...), to which
+   they are appended after the same munging.  (The appended fragment is printed with unescaped blanks; the
+   harness compares modulo that rendering.) *)
 Fixpoint prefix_of (p s : str) : bool :=
   match p, s with
   | [], _ => true
@@ -180,13 +180,14 @@ Definition unmergeable_prefixes : list str :=
    STR "-trigraphs"; STR "-pedantic"; STR "-ansi"; STR "-std="; STR "-stdlib="; STR "-include"; STR "-nostdinc";
    STR "-nostdlibinc"; STR "-nobuiltininc"].
 
-Definition unmergeable (s : str) : bool := existsb (fun p => prefix_of p s) unmergeable_prefixes.
-
-Definition is_special (s : str) : bool :=
+(* pkgconf_fragment_is_unmergeable: anything that does not start with a dash, or starts with a listed prefix *)
+Definition unmergeable (s : str) : bool :=
   match s with
-  | c :: _ => negb (N.eqb c c_dash) || prefix_of (STR "-lib:") s || unmergeable s
+  | c :: _ => negb (N.eqb c c_dash) || existsb (fun p => prefix_of p s) unmergeable_prefixes
   | [] => true
   end.
+
+Definition is_special (s : str) : bool := prefix_of (STR "-lib:") s || unmergeable s.
 
 Fixpoint collapse (prev_slash : bool) (s : str) : str :=
   match s with
